@@ -10,6 +10,20 @@ from ._utils.parse import parse_time_to_maturity
 from ._utils.parse import parse_volatility
 
 
+def _grad(output: Tensor, input: Tensor, create_graph: bool) -> Tensor:
+    # The derivative of an output that does not depend on the input is zero.
+    if not output.requires_grad:
+        return torch.zeros_like(input)
+    grad = torch.autograd.grad(
+        output,
+        inputs=input,
+        grad_outputs=torch.ones_like(output),
+        create_graph=create_graph,
+        allow_unused=True,
+    )[0]
+    return torch.zeros_like(input) if grad is None else grad
+
+
 def delta(
     pricer: Callable[..., Tensor], *, create_graph: bool = False, **params: Any
 ) -> Tensor:
@@ -97,12 +111,7 @@ def delta(
             del params[parameter]
 
     price = pricer(**params)
-    return torch.autograd.grad(
-        price,
-        inputs=spot,
-        grad_outputs=torch.ones_like(price),
-        create_graph=create_graph,
-    )[0]
+    return _grad(price, spot, create_graph)
 
 
 def gamma(
@@ -162,13 +171,8 @@ def gamma(
         params["moneyness"] = spot / params["strike"]
         params["log_moneyness"] = (spot / params["strike"]).log()
 
-    tensor_delta = delta(pricer, create_graph=True, **params).requires_grad_()
-    return torch.autograd.grad(
-        tensor_delta,
-        inputs=spot,
-        grad_outputs=torch.ones_like(tensor_delta),
-        create_graph=create_graph,
-    )[0]
+    tensor_delta = delta(pricer, create_graph=True, **params)
+    return _grad(tensor_delta, spot, create_graph)
 
 
 def gamma_from_delta(
@@ -248,12 +252,7 @@ def vega(
             del params[parameter]
 
     price = pricer(**params)
-    return torch.autograd.grad(
-        price,
-        inputs=volatility,
-        grad_outputs=torch.ones_like(price),
-        create_graph=create_graph,
-    )[0]
+    return _grad(price, volatility, create_graph)
 
 
 def theta(
@@ -305,9 +304,4 @@ def theta(
 
     price = pricer(**params)
     # Note: usually theta is calculated reversely (\partial{S}/\partial{T} = \partial{S}/\partial{-time_to_maturity})
-    return -torch.autograd.grad(
-        price,
-        inputs=time_to_maturity,
-        grad_outputs=torch.ones_like(price),
-        create_graph=create_graph,
-    )[0]
+    return -_grad(price, time_to_maturity, create_graph)
